@@ -7,8 +7,7 @@
    kind "zone" : a UTC instant shown as local date-time in zone z (every offset -23:59..+23:59 minutes, the three
                  lexical variants, extended and basic form, with/without seconds and fraction) - reading the text
                  must give the UTC instant back ("the UTC instant shifted by that offset");
-   kind "frac" : fractions of a second of 1..9 digits.
-
+   kind "frac" : fractions of a second of 1..9 digits;
    kind "pat"  : format-driven reading Date(text, format): a format from PatFormats, a text generated for it from an
                  instant (zero-padded or not), and every prefix of that text (a text that ends before the format does
                  must be read in bounds; hazard tag PatternWildcardPastEnd where a '?' would match beyond the end).
